@@ -99,7 +99,14 @@ EditTruth == /\ pc = "idle" /\ ~faulted /\ runs < MaxRuns
              /\ pre' = fs' /\ report' = [k \in K |-> FALSE] /\ synced' = FALSE
              /\ UNCHANGED <<truth, given, pc, idx, wstep, runs, faulted, spell>>
 
-Next == Begin \/ DecideKeep \/ DecideWrite \/ Open \/ Write \/ Tmp \/ Rename \/ End \/ Fault \/ EditTruth
+\* between invocations the user may name another of the given files as the truth (alternating truth kinds): like an edit,
+\* this starts a new round - the former truth is an ordinary target now and may be brought into canonical form once
+SwitchTruth == /\ pc = "idle" /\ ~faulted /\ synced /\ runs < MaxRuns
+               /\ \E k \in (given \cap BaseK) \ {truth} : truth' = k
+               /\ pre' = fs /\ report' = [k \in K |-> FALSE] /\ synced' = FALSE
+               /\ UNCHANGED <<fs, given, pc, idx, wstep, runs, faulted, spell>>
+
+Next == Begin \/ DecideKeep \/ DecideWrite \/ Open \/ Write \/ Tmp \/ Rename \/ End \/ Fault \/ EditTruth \/ SwitchTruth
 Spec == Init /\ [][Next]_vars
 
 \* ---- properties -----------------------------------------------------------------
